@@ -240,12 +240,15 @@ func (r *runtimeState) doRecvLocked(st *chanState, t *thread) {
 	}
 }
 
-// foreignDataSelectLocked: no default, only receives on foreign channels, at least one carrying data, nothing stashed.
-func (r *runtimeState) foreignDataSelectLocked(s *Sel) bool {
+// foreignDataSelectLocked: no default, only receives on foreign channels, at least one carrying data, nothing
+// stashed. Returns the choices to offer: every signal case (chan struct{}) that is ready now, by index, and -3 =
+// "take the data": the thread then receives for real, data cases first.
+func (r *runtimeState) foreignDataSelectLocked(s *Sel) (bool, []int) {
 	if s.hasDefault || len(s.cases) == 0 {
-		return false
+		return false, nil
 	}
 	data := false
+	var ready []int
 	for i := range s.cases {
 		c := &s.cases[i]
 		if c.st == nil {
@@ -254,12 +257,24 @@ func (r *runtimeState) foreignDataSelectLocked(s *Sel) bool {
 		if c.st.id == 0 && !c.send {
 			continue // nil channel (e.g. context.Background().Done()): never ready
 		}
-		if c.send || c.st.owned || len(c.st.buf) > 0 || c.st.closed {
-			return false
+		if c.send || c.st.owned {
+			return false, nil
 		}
-		data = data || c.st.data
+		if c.st.data {
+			if len(c.st.buf) > 0 || c.st.closed {
+				return false, nil // something was stashed by an earlier poll: ordinary path
+			}
+			data = true
+			continue
+		}
+		if r.pollForeignLocked(c.st) {
+			ready = append(ready, i)
+		}
 	}
-	return data
+	if !data {
+		return false, nil
+	}
+	return true, append(ready, -3)
 }
 
 func (r *runtimeState) readyCasesLocked(s *Sel, t *thread) []int {
@@ -399,7 +414,23 @@ func Select(hasDefault bool, cases ...SelCase) *Sel {
 	o := &op{kind: OpSelect, sel: s, label: fmt.Sprintf("%d cases", len(cases))}
 	park(o)
 	if o.chosenCase == -3 {
-		// all cases are receives on foreign channels, one of them carries data: wait for real
+		// all cases are receives on foreign channels, one of them carries data: take data that is already
+		// there (in case order), otherwise wait for real on all cases
+		for i := range s.cases {
+			c := &s.cases[i]
+			if c.st == nil || !c.st.data {
+				continue
+			}
+			if v, ok := c.st.real.TryRecv(); ok || v.IsValid() {
+				s.Index, s.recvOK = i, ok
+				if ok {
+					s.recvVal = v.Interface()
+				}
+				return s
+			} else if !ok && !v.IsValid() {
+				continue // would block
+			}
+		}
 		return realSelect(s)
 	}
 	s.Index = o.chosenCase
